@@ -140,7 +140,8 @@ def _real_extractions(args):
         if u < .15:
             x = np.asarray(x, float) * float(rng.choice([1e-9, 2.0 ** -40, 1e-15, 1e6]))
         elif u < .25:
-            x = np.round(np.asarray(x, float) * 40).astype([np.int64, np.int16][rng.randint(2)])
+            # (int16 with amplitudes in the hundreds: squares of the samples do not fit the type)
+            x = np.round(np.asarray(x, float) * [40, 400][rng.randint(2)]).astype([np.int64, np.int16][rng.randint(2)])
         elif u < .3:
             x = np.asarray(x, float).astype(np.float32)
         o = imf_opts_for(rng)
